@@ -338,3 +338,35 @@ Theorem C01_definition_subparser_roundtrip_partial : forall depth a l0 ls post o
              (Ok (upd_fields a (set_definition (a_fields a) d), None), s') /\ rest s' = post /\ stk s' = fr :: k.
 Proof. exact p_definition_roundtrip. Qed.
 Print Assumptions C01_definition_subparser_roundtrip_partial.
+
+(* SOURCE / ORGANISM / taxonomy (genbankSourceParser, p_source): species and
+   organism on one line each, the taxonomy joined by "; " with a final period,
+   wrapped at blanks to any width, every line of it indented.  The parser --
+   Map(genbankFieldParser SOURCE), the subfield-name parser with its two runs of
+   blanks, the organism line, the loop over the taxonomy lines, FlatFileSplit --
+   returns the accumulator with species, organism and the taxonomy list as
+   written.  l0 :: ls are the lines of the wrapped taxonomy, the first not
+   empty (a taxonomy beginning with a blank that is wrapped right there is
+   the corner the statement excludes); long species/organism values that wrap
+   are known findings K8/K9. *)
+From GTS Require Import SourceRT.
+Theorem C01_source_subparser_roundtrip_partial : forall depth a species c org taxon n l0 ls post o e ap fr k,
+  10 < depth -> no_eol species -> c <> 32 -> no_eol (c :: org) ->
+  Forall nosep taxon -> join_semi taxon <> [] ->
+  Forall (fun x => x <> 10) (join_semi taxon ++ [46]) ->
+  wrap_space (join_semi taxon ++ [46]) n = l0 ++ joined 10 ls -> no_eol l0 -> Forall no_eol ls -> l0 <> [] ->
+  is_prefix (repeat_byte 32 depth) post = false ->
+  exists s', p_source depth a
+      (mkst (n_SOURCE ++ repeat_byte 32 (depth - zlen n_SOURCE) ++ species ++ [10] ++
+             blanks 2 ++ n_ORGANISM ++ blanks (depth - 10) ++ (c :: org) ++ [10] ++
+             cont_text depth (l0 :: ls) ++ post) o e ap (fr :: k)) =
+    (Ok (upd_fields a (set_source (a_fields a) species (c :: org) taxon), None), s') /\ rest s' = post /\ stk s' = fr :: k.
+Proof. exact p_source_roundtrip. Qed.
+Print Assumptions C01_source_subparser_roundtrip_partial.
+
+(* a taxonomy of three entries wrapped at 12 columns: two lines *)
+Example C01_source_example :
+  let taxon := [[111; 116; 104; 101; 114]; [115; 101; 113; 32; 120]; [118; 101; 99]] in
+  wrap_space (join_semi taxon ++ [46]) 12 = [111; 116; 104; 101; 114; 59; 32; 115; 101; 113] ++ joined 10 [[120; 59; 32; 118; 101; 99; 46]] /\
+  Forall nosep taxon /\ join_semi taxon <> [].
+Proof. split; [vm_compute; reflexivity|]. split; [repeat constructor; vm_compute; reflexivity|discriminate]. Qed.
